@@ -21,13 +21,18 @@ STUB = ["table MDP behind msdm's model interface", "random.Random streams (SimRa
 ASSUMPTIONS = ["proper MDPs, uniform action sets, discount < 1, <= 6 non-absorbing states", "rmax configured as the maximum of the model's reward tensor (the learner asserts it)"]
 
 
+def _size(rng):
+    # mostly small models (<= 6 non-absorbing states); a few per cent are larger
+    return dict(min_states=10, max_states=20, max_actions=4) if rng.random() < 0.04 else {}
+
+
 def preload():
     import msdm.algorithms.rmax  # noqa
 
 
 def gen_case(rng, tier, idx):
     # mostly moderate discounts; a few per cent close to 1, where planning on the empirical model needs thousands of sweeps
-    spec = gen_mdp_spec(rng, proper=True, uniform_actions=True, discounts=(0.99, 0.995, 0.999) if rng.random() < 0.04 else (0.5, 0.8, 0.9, 0.95))
+    spec = gen_mdp_spec(rng, **_size(rng), proper=True, uniform_actions=True, discounts=(0.99, 0.995, 0.999) if rng.random() < 0.04 else (0.5, 0.8, 0.9, 0.95))
     cfg = dict(m=rng.randint(1, 5), tol=rng.choice((1e-3, 1e-5)), episodes=rng.randint(1, 6) if rng.random() < 0.98 else 0, seed=rng.choice((0, 1, 5, 99, None)),
                reuse=rng.randrange(1000) if rng.random() < 0.15 else None, alias=rng.choice(('fresh', 'fresh', 'cached', 'shared', 'tuple')),
                explicit_lists=rng.choice((False, False, False, True, 'swap', 'reversed')), model_update=rng.random() < 0.12)
